@@ -558,6 +558,53 @@ def check_panic(cx, chk):
     chk.floor("C15.panic", "panic-capable sites examined in the generator", n, 12)
 
 
+def check_prepass(cx, chk):
+    """The unwrap()s of generate_parse_body on generate_inline_body / get_fields are justified by "the same call already
+    succeeded in generate_code_spec of the same node".  What that needs locally: the bool closure of generate_code_spec that
+    sorts the node's children by the result of generate_inline_body sends a child whose result is Err to the side that is
+    generated with `?` (returns true for it), and the closure applied to that side propagates a failing generate_code."""
+    from .. import sem
+    cg = cx.codegen
+    S = sem.Sem(cx, cg, inline=lambda p: False)
+    n = 0
+    for p in sorted(cg.fns):
+        if "{closure" not in p or "generate_code_spec" not in p or "mir" not in cg.fns[p] or "::grammar::generated::" in p.split("generate_code_spec")[1]:
+            continue
+        owner = p.split("::{closure")[0]
+        q = mir.qself(owner)
+        okey = ("%s::%s" % (last(q[0]), q[2])) if q else short(owner)
+        try:
+            sm = S.summarize(p)
+        except sem.SemLimit:
+            continue
+        if sm is None or not sm.complete or not sm.returns:
+            continue
+        # closures returning bool that branch on the result of generate_inline_body
+        if not all(l.ret is not None and l.ret[0] == "const" and l.ret[1] == "bool" for l in sm.returns):
+            continue
+        probes = set()
+        for l in sm.returns:
+            for a, v in l.assume:
+                if a[0] == "discr" and a[1][0] == "call" and last(a[1][1]) in ("generate_inline_body", "get_fields"):
+                    probes.add(a[1])
+        if len(probes) != 1:
+            continue
+        call = list(probes)[0]
+        # does generate_parse_body of the same type unwrap the same function?
+        body_fn = [f for f in cg.fns if f.startswith(owner.rsplit("::", 1)[0].replace("<impl common::Codegen for ", "<impl ").split("<impl")[0]) and last(f) == "generate_parse_body"]
+        n += 1
+        on_err = {l.ret[2] for l in sm.returns if (mir.mk("discr", call), 1) in list(l.assume)}
+        tag = "%s sorts children by %s" % (okey, last(call[1]))
+        if on_err == {True}:
+            chk.ok("C15.panic", tag, {"fn": okey, "rule": "a child whose %s is Err goes to the side generated with `?`" % last(call[1])})
+        elif False in on_err:
+            chk.violation("C15.panic", "%s drops-err" % tag,
+                          "the closure of %s that sorts the children by the result of %s returns false when that result is Err: the child is treated as "
+                          "inlinable, its error is not propagated, and generate_parse_body later unwrap()s the same call - the compiler panics instead of "
+                          "returning the error (e.g. `R = 'a' | i'\u00e9';`)" % (okey, last(call[1])), cx.site(cx.body(cg, p)))
+    chk.floor("C15.panic", "child-sorting closures examined", n, 1)
+
+
 # ----------------------------------------------------------------- identifiers
 
 def check_keywords(cx, chk, R):
@@ -815,5 +862,6 @@ def run(cx, chk):
     check_restrict(cx, chk)
     check_cached(cx, chk)
     check_panic(cx, chk)
+    check_prepass(cx, chk)
     check_ident(cx, chk)
     check_rec(cx, chk)
